@@ -150,6 +150,12 @@ def apply(ds, ref, op):  # noqa: C901
         return ds.copy(freeze=True)
     if name == 'prefetch':
         return ds.prefetch(op[1], op[2], backend=(op[3] if len(op) > 3 else 't'))
+    if name == 'prefetch_catch':
+        spec = op[3]
+        if spec is not True:
+            excs = [exc_class(n) for n in spec]
+            spec = excs[0] if len(excs) == 1 else tuple(excs)
+        return ds.prefetch(op[1], op[2], catch_filter_exception=spec)
     if name in ('concat', 'intersperse', 'zip', 'key_zip'):
         other = partner(ds, ref, op[1])
         if name == 'concat':
